@@ -571,6 +571,32 @@ def emit(name, seed, nq, ne):
     w('        match comp { %s _ => unreachable!() }' % ' '.join('%d => { tracked(|| e.remove::<C%d, _>()); }' % (i, i) for i in range(n)))
     w('        true')
     w('    }')
+    w('    fn entry_chain(w: &mut W, id: Id, steps: &[(u8, u8, u32)]) -> Option<Vec<Vec<Option<Obs>>>> {')
+    w('        let mut e = w.entry(id)?;')
+    w('        let mut out = Vec::new();')
+    w('        for (kind, comp, p) in steps {')
+    w('            match (kind % 3, *comp as usize % ' + str(max(n, 1)) + ') {')
+    for i in range(n):
+        w('                (0, %d) => { let v = C%d::make(C%d::norm(*p %% 60_000)); tracked(|| e.add(v)); }' % (i, i, i))
+        w('                (1, %d) => { tracked(|| e.remove::<C%d, _>()); }' % (i, i))
+    w('                _ => { out.push(match e.query(Query::<%s>::new()) { Some(%s) => %s, None => vec![None; %d + 1] }); }' % (all_opt, res_all, obs_vec, n))
+    w('            }')
+    w('        }')
+    w('        Some(out)')
+    w('    }')
+    w('    fn extend_ragged(w: &mut W, mask: u32, lens: &[usize], p: u32) -> Option<Vec<Id>> {')
+    w('        fn coln<C: Comp>(n: usize, p: u32) -> Vec<C> { (0..n).map(|i| C::make(C::norm(p.wrapping_add(i as u32) % 60_000))).collect() }')
+    w('        match mask {')
+    for m in shapes:
+        cs = bits(m, n)
+        if len(cs) >= 2 and rich:
+            cols = 'entities::Null'
+            for k, c in reversed(list(enumerate(cs))):
+                cols = '(coln::<C%d>(lens[%d %% lens.len()], p), %s)' % (c, k, cols)
+            w('            %d => { let b = Batch::new(%s); Some(tracked(|| w.extend(b))) }' % (m, cols))
+    w('            _ => None,')
+    w('        }')
+    w('    }')
     w('    fn snapshot(w: &mut W) -> Vec<Row> {')
     w('        let mut out = Vec::new();')
     w('        for %s in w.query(Query::<%s>::new()).iter { out.push(Row { id, comps: %s }); }' % (res_all_id, all_opt_id, obs_vec))
